@@ -22,7 +22,9 @@ RULE += '; data tables named like a model of the catalog, three-part table names
 ASSUMPTIONS = ['marker names are unique, so an identifier part tb_NN / mdl_N identifies its table / model wherever it appears',
                'first name part matched case-insensitively against integrations and projects, otherwise the default namespace']
 BUDGET = {'quick': (8, 240), 'thorough': (16, 1800)}
-INTS = ['int1', 'int2', 'int3', 'außen4']      # (the last: a name on which lower() and casefold() disagree)
+INTS = ['int1', 'int2', 'int3', 'außen4',      # (a name on which lower() and casefold() disagree)
+        'files', 'views',                      # the pseudo-databases: data tables live there too, and are fetched from there
+        'm', 's']                              # one-letter names (letters of the default project's name)
 
 
 def floors(tier):
@@ -306,7 +308,8 @@ def catalog(form, case, default_ns):
             integrations.append({'name': 'proj', 'type': 'project'})
     if form == 6:
         # names and dicts mixed, names not in lower case
-        integrations = ['INT1', {'name': 'Int2', 'type': 'data'}, 'int3', {'name': 'Proj', 'type': 'project'}, {'name': 'Außen4', 'type': 'data'}]
+        integrations = ['INT1', {'name': 'Int2', 'type': 'data'}, 'int3', {'name': 'Proj', 'type': 'project'}, {'name': 'Außen4', 'type': 'data'},
+                        'Files', {'name': 'VIEWS', 'type': 'data'}, 'M', {'name': 'S', 'type': 'data'}]
     if form == 9:
         integrations = [{'name': n, 'type': 'data'} for n in ints] + [{'name': 'proj', 'type': 'project'}, {'name': 'mindsdb', 'type': 'project'}]
     if getattr(case, 'uses_project', False):
@@ -627,8 +630,25 @@ def run_shard(ctx):
                        f'SELECT a1.c FROM {ns}.tb_90 AS a1 WHERE a1.k IN (SELECT s1.c FROM {oth[1]}.tb_94 AS s1)',
                        f'SELECT a1.c FROM tb_90 AS a1 UNION SELECT a2.c FROM {oth[0]}.tb_95 AS a2'] + seq
                 kw_ns = ns
+                # the CTE's name is this case's own (no earlier statement of the process has used it): what the later statements route to
+                # BEFORE the WITH statement has ever been planned is the reference for after it - also for a fresh planner (state kept
+                # at module level outlives planner objects)
+                seq = [x.replace('tb_90', f'tb_90x{i}') for x in seq]
+                pre = {}
+                try:
+                    kw0 = catalog(form0, case, kw_ns)
+                    for vt in seq[1:4]:
+                        try:
+                            pre[vt] = canon(routing(plan_query(parse_sql(vt, 'mindsdb'), **kw0)))
+                        except (PlanningException, NotImplementedError) as e:
+                            pre[vt] = ('rejected', type(e).__name__)
+                        except Exception as e:
+                            pre[vt] = ('internal-error', type(e).__name__)
+                except Exception:
+                    pre = {}
             else:
                 kw_ns = default_ns
+                pre = {}
             kw = catalog(form0, case, kw_ns)
             try:
                 planner = QueryPlanner(**kw)
@@ -647,6 +667,12 @@ def run_shard(ctx):
                     except Exception as e:
                         outs.append(('internal-error', type(e).__name__))
                 acc.count('reuse_compared')
+                if vt in pre:
+                    acc.count('compared_with_routing_before_the_cte_statement')
+                    if outs[0] != pre[vt]:
+                        acc.fail({'defect': 'routing-depends-on-statements-planned-earlier-in-the-process', 'position': 'table-named-like-an-earlier-cte'},
+                                 {'sequence': seq[:k + 1], 'before': repr(pre[vt])[:400], 'after': repr(outs[0])[:400], 'default_namespace': kw_ns})
+                        break
                 if outs[0] != outs[1]:
                     acc.fail({'defect': 'routing-depends-on-planner-history', 'position': next(iter(case.positions))},
                              {'sequence': seq[:k + 1], 'fresh': repr(outs[0])[:400], 'reused': repr(outs[1])[:400], 'default_namespace': default_ns})
